@@ -13,6 +13,137 @@ def blocked_guard(flag: str, user_pred):
     return pred
 
 
+def reeval_rules(eng: Engine, ck: Check, rule: str, constructs: Optional[set] = None):
+    """Re-evaluation of uploads after a shares / block-list / friends change (R-C08-REEVAL).  `constructs` restricts the obligations to
+    the named ones: C06 relies on the part that keeps an upload aborted ON REQUEST aborted (the REQUESTED reason is tested first and
+    wins; a re-queue happens only for an ABORTED upload whose reason vanished)."""
+    repo = eng.repo
+
+    def ob(fn_, node_, text_, ok_, why_='', construct=None):
+        if constructs is None or construct in constructs:
+            ck.ob(rule, fn_, node_, text_, ok_, why_, construct=construct)
+
+    def floor(name_, n_, least_):
+        if constructs is None:
+            ck.floor(f'{rule}.{name_}', n_, least_)
+    ms = eng.func(TM, 'TransferManager.manage_shares_changed')
+    # the evaluation of one upload: the helper manage_shares_changed calls for `<change>, <reason> = self.<helper>(upload)`, or
+    # manage_shares_changed itself when the evaluation is written in place
+    mr = [(n_, {'sc': unparse(n_.targets[0].elts[0]), 'ar': unparse(n_.targets[0].elts[1]), 'h': n_.value.func.attr}) for n_ in walk_local(ms.node)
+          if isinstance(n_, ast.Assign) and isinstance(n_.targets[0], ast.Tuple) and len(n_.targets[0].elts) == 2 and isinstance(n_.value, ast.Call) and
+          isinstance(n_.value.func, ast.Attribute) and unparse(n_.value.func.value) == 'self' and len(n_.value.args) == 1 and
+          eng.repo.find_func(TM, f'TransferManager.{n_.value.func.attr}') is not None and
+          any(isinstance(r_.value, ast.Tuple) and len(r_.value.elts) == 2 for r_ in walk_local(eng.repo.find_func(TM, f'TransferManager.{n_.value.func.attr}').node) if isinstance(r_, ast.Return) and r_.value is not None)]
+    mr = [x for x in mr if x[1]['h'] != '_get_queued_transfers']
+    ev = eng.repo.find_func(TM, f'TransferManager.{mr[0][1]["h"]}') if len(mr) == 1 else ms
+    ck.visited(ms)
+    ck.visited(ev)
+    src = unparse(ms.node)
+    skipped = set()
+    for n in walk_with_lambdas(ms.node):
+        if isinstance(n, ast.Compare) and isinstance(n.ops[0], ast.NotIn) and mentions_attr(n.left, 'state'):
+            skipped = enum_members_in(n.comparators[0])
+    ob(ms, ms.node, 'every upload except COMPLETE and FAILED ones is re-evaluated', skipped == {'COMPLETE', 'FAILED'} and
+          'is_upload()' in src, f'skipped states: {sorted(skipped)}', construct='reeval population')
+    conds = None
+    for n in walk_local(ev.node):
+        if isinstance(n, ast.Assign) and isinstance(n.value, ast.Tuple) and all(isinstance(x, ast.Tuple) and len(x.elts) == 2 for x in n.value.elts):
+            conds = [(unparse(x.elts[0]), enum_member(x.elts[1])) for x in n.value.elts]
+    ob(ev, ev.node, 'abort reasons are evaluated in the order REQUESTED > BLOCKED > FILE_NOT_SHARED, first hit wins',
+          conds is not None and [c[1] for c in conds] == ['REQUESTED', 'BLOCKED', 'FILE_NOT_SHARED'] and
+          any(isinstance(x, ast.Break) for x in walk_local(ev.node)), f'{conds}', construct='reason order')
+    inner = {f.name: f for f in repo.all_funcs() if f.outer is ev}
+    exp = {'_is_abort_requested': ('abort_reason', 'REQUESTED'), '_is_blocked': ('is_blocked', 'UPLOADS'), '_is_not_shared': ('find_shared_item_cache', None)}
+    for nm, (needle, mem) in exp.items():
+        f = inner.get(nm)
+        ok = f is not None and needle in unparse(f.node) and (mem is None or mem in enum_members_in(f.node))
+        if ok and nm == '_is_not_shared':
+            ok = any(isinstance(x, ast.UnaryOp) and isinstance(x.op, ast.Not) for x in ast.walk(f.node)) and 'transfer.username' in unparse(f.node)
+        if ok and nm == '_is_blocked':
+            ok = 'transfer.username' in unparse(f.node) and 'not ' not in unparse(f.node)
+        ob(f or ev, (f or ev).node, f'condition {nm} tests {needle}{" " + mem if mem else ""} for the upload\'s user', bool(ok),
+              unparse(f.node)[:120] if f else 'missing', construct=f'condition {nm}')
+    # names discovered from the definition `<should change> = <aborted> != bool(<reason>)`
+    scd = pfind(ev.node, '$sc = $a != bool($ar)') + pfind(ev.node, '$sc = $a != ($ar is not None)')
+    SC, AR = (scd[0][1]['sc'], scd[0][1]['ar']) if len(scd) == 1 else ('should_change', 'abort_reason')
+    if ev is not ms:
+        evr = [n for n in walk_local(ev.node) if isinstance(n, ast.Return)]
+        ob(ev, ev.node, 'the evaluation returns (should change, reason)', len(evr) == 1 and isinstance(evr[0].value, ast.Tuple) and
+              [unparse(x) for x in evr[0].value.elts] == [SC, AR], f'{[unparse(r_) for r_ in evr]}', construct='evaluation result')
+    sc = [n for n in walk_local(ev.node) if isinstance(n, ast.Assign) and unparse(n.targets[0]) == SC]
+    ok = len(sc) == 1 and isinstance(sc[0].value, ast.Compare) and isinstance(sc[0].value.ops[0], ast.NotEq)
+    ab = None
+    if ok:
+        sides = [sc[0].value.left, sc[0].value.comparators[0]]
+        reason_side = [x for x in sides if unparse(x) in (f'bool({AR})', f'{AR} is not None')]
+        ab_side = [x for x in sides if x not in reason_side]
+        ok = len(reason_side) == 1 and len(ab_side) == 1
+        if ok:
+            ab = expand_aliases(ev, ab_side[0])
+    ob(ev, sc[0] if sc else ev.node, 'should_change = (is ABORTED) != (has a reason to be aborted)', ok,
+          f'{[unparse(s) for s in sc]}', construct='should_change')
+    ob(ev, ev.node, '`aborted` means state == ABORTED', ab is not None and enum_members_in(ab) == {'ABORTED'} and
+          isinstance(ab, ast.Compare) and isinstance(ab.ops[0], ast.Eq), unparse(ab), construct='aborted definition')
+    # in manage_shares_changed:  <sc>, <reason> = self._evaluate_aborted_state(upload)
+    SC2, AR2 = (mr[0][1]['sc'], mr[0][1]['ar']) if len(mr) == 1 else (SC, AR)
+    qs = [c for c in calls_in(ms.node) if call_name(c) == 'queue' and mentions_attr(c.func.value, 'state')]
+    abs_ = [c for c in calls_in(ms.node) if call_name(c) == 'abort' and mentions_attr(c.func.value, 'state')]
+    floor('actions', min(len(qs), len(abs_)), 1)
+    for c in qs:
+        gs = eng.guards_at(ms, c)
+        ok = any(pol and unparse(e) == SC2 for e, pol, _ in gs) and any(pol and enum_members_in(e) == {'ABORTED'} for e, pol, _ in gs)
+        ob(ms, c, 'an ABORTED upload whose reason vanished is queued again', ok, f'{[(unparse(e), p) for e, p, _ in gs]}',
+              construct='requeue')
+    for c in abs_:
+        gs = eng.guards_at(ms, c)
+        ok = any(pol and unparse(e) == SC2 for e, pol, _ in gs) and any((not pol) and enum_members_in(e) == {'ABORTED'} for e, pol, _ in gs)
+        r = kw(c, 'reason') or (c.args[0] if c.args else None)
+        ok = ok and r is not None and unparse(r) == AR2
+        ob(ms, c, 'an upload that is no longer permitted is aborted with the matching reason', ok,
+              f'{[(unparse(e), p) for e, p, _ in gs]} reason={unparse(r)}', construct='abort with reason')
+    # the awaits are actually awaited
+    g = [c for c in calls_in(ms.node) if call_name(c) == 'gather']
+    ob(ms, ms.node, 'the collected state changes are awaited before the cycle continues', bool(g) and
+          all(isinstance(parent(x), ast.Await) for x in g), '', construct='reeval awaited')
+    # events -> SHARES cycle
+    rl = eng.func(TM, 'TransferManager.register_listeners')
+    regs = {}
+    for c in calls_on(rl.node, 'register'):
+        if len(c.args) >= 2:
+            regs[unparse(c.args[0])] = unparse(c.args[1])
+    need = ['BlockListChangedEvent', 'FriendListChangedEvent', 'SharedDirectoryChangeEvent', 'ScanCompleteEvent']
+    for ev_name in need:
+        ob(rl, rl.node, f'{ev_name} requests a shares re-evaluation cycle', regs.get(ev_name) == 'self._request_shares_cycle',
+              f'registered: {regs.get(ev_name)}', construct=f'listener {ev_name}')
+    rsc = eng.func(TM, 'TransferManager._request_shares_cycle')
+    ok = any(call_name(c) == 'request_management_cycle' and c.args and enum_member(c.args[0]) == 'SHARES_CHANGE' and not eng.guards_at(rsc, c)
+             for c in calls_in(rsc.node))
+    ob(rsc, rsc.node, '_request_shares_cycle sets the SHARES_CHANGE flag unconditionally', ok, '', construct='shares flag set')
+    rmc = eng.func(TM, 'TransferManager.request_management_cycle')
+    ok = any(isinstance(n, ast.AugAssign) and isinstance(n.op, ast.BitOr) and mentions_attr(n.target, '_management_flags') and
+             unparse(n.value) == rmc.params[1] and not eng.guards_at(rmc, n) for n in walk_local(rmc.node)) and \
+        any(call_name(c) == 'put_nowait' for c in calls_in(rmc.node))
+    ob(rmc, rmc.node, 'request_management_cycle ORs the flag in and wakes the management job', ok, '', construct='flag or-ed')
+    mj = eng.func(TM, 'TransferManager._management_job')
+    ck.visited(mj)
+    c = eng.cfg(mj)
+    msn = [n for call in calls_on(mj.node, 'manage_shares_changed') for n in c.nodes_for(call)]
+    mtn = [n for call in calls_on(mj.node, 'manage_transfers') for n in c.nodes_for(call)]
+    floor('job', min(len(msn), len(mtn)), 1)
+    for call in calls_on(mj.node, 'manage_shares_changed'):
+        gs = expanded_guards(eng, mj, call)
+        ok = any(pol and 'SHARES_CHANGE' in enum_members_in(e) and ((isinstance(e, ast.BinOp) and isinstance(e.op, ast.BitAnd)) or ((cmp_atom(e) or ('',))[0] == 'in' and 'SHARES_CHANGE' in enum_members_in(cmp_atom(e)[1]))) for e, pol, _ in gs) and len(gs) == 1
+        ob(mj, call, 'the management job re-evaluates uploads iff the SHARES_CHANGE flag was set', ok,
+              f'{[(unparse(e), p) for e, p, _ in gs]}', construct='job runs reeval on flag')
+    # re-evaluation precedes starting transfers in the same cycle
+    if msn and mtn:
+        # on the flag-set path manage_transfers is only reached through manage_shares_changed
+        asm = [a for a in c.nodes if a.kind == 'assume' and a.polarity and 'SHARES_CHANGE' in unparse(expand_aliases(mj, a.ast))]
+        p = c.find_path(asm, lambda n: n in mtn, avoid=lambda n: n in msn) if asm else 'x'
+        ob(mj, mj.node, 'with the flag set, uploads are re-evaluated before transfers are started in that cycle',
+              p is None, 'manage_transfers reachable first', construct='reeval before start')
+
+
 def run(eng: Engine, ck: Check):
     repo = eng.repo
     sm = eng.cls('SharesManager', SHARES)
@@ -283,122 +414,9 @@ def run(eng: Engine, ck: Check):
     q = q_outer
 
     # ---- R-C08-REEVAL
-    ms = eng.func(TM, 'TransferManager.manage_shares_changed')
-    # the evaluation of one upload: the helper manage_shares_changed calls for `<change>, <reason> = self.<helper>(upload)`, or
-    # manage_shares_changed itself when the evaluation is written in place
-    mr = [(n_, {'sc': unparse(n_.targets[0].elts[0]), 'ar': unparse(n_.targets[0].elts[1]), 'h': n_.value.func.attr}) for n_ in walk_local(ms.node)
-          if isinstance(n_, ast.Assign) and isinstance(n_.targets[0], ast.Tuple) and len(n_.targets[0].elts) == 2 and isinstance(n_.value, ast.Call) and
-          isinstance(n_.value.func, ast.Attribute) and unparse(n_.value.func.value) == 'self' and len(n_.value.args) == 1 and
-          eng.repo.find_func(TM, f'TransferManager.{n_.value.func.attr}') is not None and
-          any(isinstance(r_.value, ast.Tuple) and len(r_.value.elts) == 2 for r_ in walk_local(eng.repo.find_func(TM, f'TransferManager.{n_.value.func.attr}').node) if isinstance(r_, ast.Return) and r_.value is not None)]
-    mr = [x for x in mr if x[1]['h'] != '_get_queued_transfers']
-    ev = eng.repo.find_func(TM, f'TransferManager.{mr[0][1]["h"]}') if len(mr) == 1 else ms
-    ck.visited(ms)
-    ck.visited(ev)
-    src = unparse(ms.node)
-    skipped = set()
-    for n in walk_with_lambdas(ms.node):
-        if isinstance(n, ast.Compare) and isinstance(n.ops[0], ast.NotIn) and mentions_attr(n.left, 'state'):
-            skipped = enum_members_in(n.comparators[0])
-    ck.ob('R-C08-REEVAL', ms, ms.node, 'every upload except COMPLETE and FAILED ones is re-evaluated', skipped == {'COMPLETE', 'FAILED'} and
-          'is_upload()' in src, f'skipped states: {sorted(skipped)}', construct='reeval population')
-    conds = None
-    for n in walk_local(ev.node):
-        if isinstance(n, ast.Assign) and isinstance(n.value, ast.Tuple) and all(isinstance(x, ast.Tuple) and len(x.elts) == 2 for x in n.value.elts):
-            conds = [(unparse(x.elts[0]), enum_member(x.elts[1])) for x in n.value.elts]
-    ck.ob('R-C08-REEVAL', ev, ev.node, 'abort reasons are evaluated in the order REQUESTED > BLOCKED > FILE_NOT_SHARED, first hit wins',
-          conds is not None and [c[1] for c in conds] == ['REQUESTED', 'BLOCKED', 'FILE_NOT_SHARED'] and
-          any(isinstance(x, ast.Break) for x in walk_local(ev.node)), f'{conds}', construct='reason order')
-    inner = {f.name: f for f in repo.all_funcs() if f.outer is ev}
-    exp = {'_is_abort_requested': ('abort_reason', 'REQUESTED'), '_is_blocked': ('is_blocked', 'UPLOADS'), '_is_not_shared': ('find_shared_item_cache', None)}
-    for nm, (needle, mem) in exp.items():
-        f = inner.get(nm)
-        ok = f is not None and needle in unparse(f.node) and (mem is None or mem in enum_members_in(f.node))
-        if ok and nm == '_is_not_shared':
-            ok = any(isinstance(x, ast.UnaryOp) and isinstance(x.op, ast.Not) for x in ast.walk(f.node)) and 'transfer.username' in unparse(f.node)
-        if ok and nm == '_is_blocked':
-            ok = 'transfer.username' in unparse(f.node) and 'not ' not in unparse(f.node)
-        ck.ob('R-C08-REEVAL', f or ev, (f or ev).node, f'condition {nm} tests {needle}{" " + mem if mem else ""} for the upload\'s user', bool(ok),
-              unparse(f.node)[:120] if f else 'missing', construct=f'condition {nm}')
-    # names discovered from the definition `<should change> = <aborted> != bool(<reason>)`
-    scd = pfind(ev.node, '$sc = $a != bool($ar)') + pfind(ev.node, '$sc = $a != ($ar is not None)')
-    SC, AR = (scd[0][1]['sc'], scd[0][1]['ar']) if len(scd) == 1 else ('should_change', 'abort_reason')
-    if ev is not ms:
-        evr = [n for n in walk_local(ev.node) if isinstance(n, ast.Return)]
-        ck.ob('R-C08-REEVAL', ev, ev.node, 'the evaluation returns (should change, reason)', len(evr) == 1 and isinstance(evr[0].value, ast.Tuple) and
-              [unparse(x) for x in evr[0].value.elts] == [SC, AR], f'{[unparse(r_) for r_ in evr]}', construct='evaluation result')
-    sc = [n for n in walk_local(ev.node) if isinstance(n, ast.Assign) and unparse(n.targets[0]) == SC]
-    ok = len(sc) == 1 and isinstance(sc[0].value, ast.Compare) and isinstance(sc[0].value.ops[0], ast.NotEq)
-    ab = None
-    if ok:
-        sides = [sc[0].value.left, sc[0].value.comparators[0]]
-        reason_side = [x for x in sides if unparse(x) in (f'bool({AR})', f'{AR} is not None')]
-        ab_side = [x for x in sides if x not in reason_side]
-        ok = len(reason_side) == 1 and len(ab_side) == 1
-        if ok:
-            ab = expand_aliases(ev, ab_side[0])
-    ck.ob('R-C08-REEVAL', ev, sc[0] if sc else ev.node, 'should_change = (is ABORTED) != (has a reason to be aborted)', ok,
-          f'{[unparse(s) for s in sc]}', construct='should_change')
-    ck.ob('R-C08-REEVAL', ev, ev.node, '`aborted` means state == ABORTED', ab is not None and enum_members_in(ab) == {'ABORTED'} and
-          isinstance(ab, ast.Compare) and isinstance(ab.ops[0], ast.Eq), unparse(ab), construct='aborted definition')
-    # in manage_shares_changed:  <sc>, <reason> = self._evaluate_aborted_state(upload)
-    SC2, AR2 = (mr[0][1]['sc'], mr[0][1]['ar']) if len(mr) == 1 else (SC, AR)
-    qs = [c for c in calls_in(ms.node) if call_name(c) == 'queue' and mentions_attr(c.func.value, 'state')]
-    abs_ = [c for c in calls_in(ms.node) if call_name(c) == 'abort' and mentions_attr(c.func.value, 'state')]
-    ck.floor('R-C08-REEVAL.actions', min(len(qs), len(abs_)), 1)
-    for c in qs:
-        gs = eng.guards_at(ms, c)
-        ok = any(pol and unparse(e) == SC2 for e, pol, _ in gs) and any(pol and enum_members_in(e) == {'ABORTED'} for e, pol, _ in gs)
-        ck.ob('R-C08-REEVAL', ms, c, 'an ABORTED upload whose reason vanished is queued again', ok, f'{[(unparse(e), p) for e, p, _ in gs]}',
-              construct='requeue')
-    for c in abs_:
-        gs = eng.guards_at(ms, c)
-        ok = any(pol and unparse(e) == SC2 for e, pol, _ in gs) and any((not pol) and enum_members_in(e) == {'ABORTED'} for e, pol, _ in gs)
-        r = kw(c, 'reason') or (c.args[0] if c.args else None)
-        ok = ok and r is not None and unparse(r) == AR2
-        ck.ob('R-C08-REEVAL', ms, c, 'an upload that is no longer permitted is aborted with the matching reason', ok,
-              f'{[(unparse(e), p) for e, p, _ in gs]} reason={unparse(r)}', construct='abort with reason')
-    # the awaits are actually awaited
-    g = [c for c in calls_in(ms.node) if call_name(c) == 'gather']
-    ck.ob('R-C08-REEVAL', ms, ms.node, 'the collected state changes are awaited before the cycle continues', bool(g) and
-          all(isinstance(parent(x), ast.Await) for x in g), '', construct='reeval awaited')
-    # events -> SHARES cycle
-    rl = eng.func(TM, 'TransferManager.register_listeners')
-    regs = {}
-    for c in calls_on(rl.node, 'register'):
-        if len(c.args) >= 2:
-            regs[unparse(c.args[0])] = unparse(c.args[1])
-    need = ['BlockListChangedEvent', 'FriendListChangedEvent', 'SharedDirectoryChangeEvent', 'ScanCompleteEvent']
-    for ev_name in need:
-        ck.ob('R-C08-REEVAL', rl, rl.node, f'{ev_name} requests a shares re-evaluation cycle', regs.get(ev_name) == 'self._request_shares_cycle',
-              f'registered: {regs.get(ev_name)}', construct=f'listener {ev_name}')
-    rsc = eng.func(TM, 'TransferManager._request_shares_cycle')
-    ok = any(call_name(c) == 'request_management_cycle' and c.args and enum_member(c.args[0]) == 'SHARES_CHANGE' and not eng.guards_at(rsc, c)
-             for c in calls_in(rsc.node))
-    ck.ob('R-C08-REEVAL', rsc, rsc.node, '_request_shares_cycle sets the SHARES_CHANGE flag unconditionally', ok, '', construct='shares flag set')
-    rmc = eng.func(TM, 'TransferManager.request_management_cycle')
-    ok = any(isinstance(n, ast.AugAssign) and isinstance(n.op, ast.BitOr) and mentions_attr(n.target, '_management_flags') and
-             unparse(n.value) == rmc.params[1] and not eng.guards_at(rmc, n) for n in walk_local(rmc.node)) and \
-        any(call_name(c) == 'put_nowait' for c in calls_in(rmc.node))
-    ck.ob('R-C08-REEVAL', rmc, rmc.node, 'request_management_cycle ORs the flag in and wakes the management job', ok, '', construct='flag or-ed')
+    reeval_rules(eng, ck, 'R-C08-REEVAL')
     mj = eng.func(TM, 'TransferManager._management_job')
-    ck.visited(mj)
     c = eng.cfg(mj)
-    msn = [n for call in calls_on(mj.node, 'manage_shares_changed') for n in c.nodes_for(call)]
-    mtn = [n for call in calls_on(mj.node, 'manage_transfers') for n in c.nodes_for(call)]
-    ck.floor('R-C08-REEVAL.job', min(len(msn), len(mtn)), 1)
-    for call in calls_on(mj.node, 'manage_shares_changed'):
-        gs = expanded_guards(eng, mj, call)
-        ok = any(pol and 'SHARES_CHANGE' in enum_members_in(e) and ((isinstance(e, ast.BinOp) and isinstance(e.op, ast.BitAnd)) or ((cmp_atom(e) or ('',))[0] == 'in' and 'SHARES_CHANGE' in enum_members_in(cmp_atom(e)[1]))) for e, pol, _ in gs) and len(gs) == 1
-        ck.ob('R-C08-REEVAL', mj, call, 'the management job re-evaluates uploads iff the SHARES_CHANGE flag was set', ok,
-              f'{[(unparse(e), p) for e, p, _ in gs]}', construct='job runs reeval on flag')
-    # re-evaluation precedes starting transfers in the same cycle
-    if msn and mtn:
-        # on the flag-set path manage_transfers is only reached through manage_shares_changed
-        asm = [a for a in c.nodes if a.kind == 'assume' and a.polarity and 'SHARES_CHANGE' in unparse(expand_aliases(mj, a.ast))]
-        p = c.find_path(asm, lambda n: n in mtn, avoid=lambda n: n in msn) if asm else 'x'
-        ck.ob('R-C08-REEVAL', mj, mj.node, 'with the flag set, uploads are re-evaluated before transfers are started in that cycle',
-              p is None, 'manage_transfers reachable first', construct='reeval before start')
     # ---- R-C08-FLAGS (atomic snapshot-and-clear of the request flags)
     reads = [n for n in walk_local(mj.node) if isinstance(n, ast.Attribute) and n.attr == '_management_flags' and isinstance(n.ctx, ast.Load)]
     resets = [st for f, st, v in eng.stores_to_attr('_management_flags', [mj]) if not isinstance(st, ast.AugAssign)]
@@ -418,3 +436,4 @@ def run(eng: Engine, ck: Check):
     from . import defs as _d08
     _d08.enum_members_distinct(eng, ck, 'R-C08-GATE', [('BlockingFlag', 'user/model.py'), ('DirectoryShareMode', 'shares/model.py'), ('_RequestFlag', TM), ('AbortReason', 'transfer/model.py')], 'uploads are refused to users blocked for UPLOADS, listings to users blocked for SHARES; a directory is FRIENDS or USERS or EVERYONE')
     _d08.job_raises_nothing_typed(eng, ck, 'R-C08-REEVAL', TM, 'TransferManager._management_job', 'the job is what re-evaluates uploads after a shares / block / friends change')
+    _d08.lock_wrapper_forwards_arguments(eng, ck, 'R-C08-REEVAL', 'an upload aborted on the user\'s request is recognised by its REQUESTED reason, which abort() receives by keyword')
